@@ -41,8 +41,14 @@ def write(env, build_inputs):
     rule_handler.run(build_inputs.edges(), build_inputs, buildfile, env)
     post_rules_hook.run(build_inputs, buildfile, env)
 
-    with open(filepath.string(env.base_dirs), 'w') as out:
+    # Write to a temporary file first and rename it into place: if we get
+    # interrupted, a truncated (or empty) `build.ninja` would be a valid
+    # manifest with nothing to do, and Ninja would never regenerate it.
+    real_path = filepath.string(env.base_dirs)
+    tmp_path = real_path + '.tmp'
+    with open(tmp_path, 'w') as out:
         buildfile.write(out)
+    os.replace(tmp_path, real_path)
 
 
 def flags_vars(name, value, buildfile):
